@@ -10,18 +10,25 @@ def gen_groups(res):
     n = 10 if res.tier == "quick" else 120
     cfgs = [{"members": 3, "replicas": 2, "partitions": 7, "table": 1024, "evict_workers": 1},
             {"members": 3, "replicas": 3, "partitions": 13, "table": 512, "evict_workers": 1},
-            {"members": 2, "replicas": 2, "partitions": 7, "table": 1 << 20, "evict_workers": 1}]
+            {"members": 2, "replicas": 2, "partitions": 7, "table": 1 << 20, "evict_workers": 1},
+            # fragments that span many storage tables (values of 30-110 bytes in 300-byte tables): the backup write path
+            # (PutRaw) has to supersede versions in older tables exactly like the primary's
+            {"members": 3, "replicas": 2, "partitions": 3, "table": 300, "evict_workers": 1, "_multi": True}]
     groups = []
     sid = 0
     for ci, cfg in enumerate(cfgs):
         scs = []
         for i in range(n):
             rng = vlib.rng_for(res.seed, PID, ci, i)
-            ops = dmaplib.gen_seq(rng, "c04d%d" % sid, rng.randrange(3, 30), nkeys=rng.choice([1, 2, 3]),
-                                  short_ttl=(i % 3 == 0), evict_members=cfg["members"] if i % 3 == 0 else 0)
+            if cfg.get("_multi"):
+                ops = dmaplib.gen_seq(rng, "c04d%d" % sid, rng.randrange(40, 90), nkeys=rng.choice([3, 5]), short_ttl=False,
+                                      locks=False, pad=[30, 70, 110])
+            else:
+                ops = dmaplib.gen_seq(rng, "c04d%d" % sid, rng.randrange(3, 30), nkeys=rng.choice([1, 2, 3]),
+                                      short_ttl=(i % 3 == 0), evict_members=cfg["members"] if i % 3 == 0 else 0)
             scs.append({"id": sid, "ops": ops})
             sid += 1
-        groups.append((cfg, scs))
+        groups.append(({k: v for k, v in cfg.items() if not k.startswith("_")}, scs))
     return groups
 
 
@@ -37,7 +44,7 @@ def run(res):
         res, PID, gen_groups, dmaplib.judge_seq,
         rule="seeded random sequences (3-30 ops) over Put with every option, Expire, GetPut, Incr/Decr, Delete, Lock/Unlock/Lease, "
              "expiry + background eviction passes, on 1-3 keys through 7 client paths, on clusters (N,R) in {(3,2),(3,3),(2,2)} with table "
-             "sizes 512..1MiB; after EVERY operation a white-box dump of every member's primary and backup copy; predicate = mirror "
+             "sizes 512..1MiB, plus 40-90 operation sequences with 30-110 byte values in 300-byte tables (fragments of many tables); after EVERY operation a white-box dump of every member's primary and backup copy; predicate = mirror "
              "(value, ttl, timestamp, presence, number of copies) + reference semantics; non-trivial = >= 3 kinds of acknowledged mutations",
         nontrivial=nontrivial)
 
